@@ -185,7 +185,11 @@ where
             match wait_mode {
                 WaitMode::Block => limiter.until_key_ready(peer_id).await,
                 WaitMode::ReturnError => {
+                    #[cfg(bmwill_anemo_verif)]
+                    anemo::verif::named_point("rate_limit::before_check");
                     if let Err(e) = limiter.check_key(peer_id) {
+                        #[cfg(bmwill_anemo_verif)]
+                        anemo::verif::named_point("rate_limit::refused");
                         let wait_time = e.wait_time_from(clock.now());
                         return Err(anemo::rpc::Status::new(
                             anemo::types::response::StatusCode::TooManyRequests,
